@@ -488,7 +488,8 @@ fn finish(
     });
     let _ = std::fs::create_dir_all(format!("{}/evidence", VERIF_DIR));
     let _ = std::fs::write(
-        format!("{}/evidence/{}.json", VERIF_DIR, id),
+        // VERIF_EVIDENCE_SUFFIX: secondary runs (sanitizer builds) write next to the main file
+        format!("{}/evidence/{}{}.json", VERIF_DIR, id, std::env::var("VERIF_EVIDENCE_SUFFIX").unwrap_or_default()),
         serde_json::to_string_pretty(&ev).unwrap_or_default(),
     );
     println!(
